@@ -81,8 +81,59 @@ def build(typ, hists, n, tag):
     return c
 
 
+def takeover_case(typ, old_state, n):
+    """subscriptions are counted PER CONNECTION: a second connection that announces an identity which is still registered
+    (the old connection open, or closed but not yet noticed) starts with NO subscription — it gets only what IT subscribes to"""
+    sc = wg.Script()
+    sc.sock(1, typ)
+    sc.attach(1, 1, "SUB", b"sub-A")
+    sc.reveal_msg(1, [b"\x01x"])
+
+    def settle(k=1):
+        if typ == "PUB":
+            sc.add("drain")
+        else:
+            for _ in range(k):
+                f = sc.fut()
+                sc.add(f"recv {f} 1", f"poll {f}", f"drop {f}")
+
+    settle()
+    sc.send_once(1, [b"x-probe"])
+    sc.add("wire 1")
+    if old_state == "eof":
+        sc.add("eof 1")
+    sc.attach(1, 2, "SUB", b"sub-A")
+    sc.add("wire 2")
+    settle()
+    sc.reveal_msg(2, [b"\x01y"])
+    settle()
+    sent = []
+    for topic in (b"x-final", b"y-final", b"z-final"):
+        f = sc.send_once(1, [topic])
+        sc.add("wire 2")
+        sent.append(topic)
+    c = sc.case(f"takeover-{typ}-{old_state}#{n}", ["identity-takeover"])
+    c.expect = ("takeover", typ, sent)
+    return c
+
+
+def takeover_oracle(case, lines):
+    res = list(zip(case.ops, lines[1:]))
+    _, typ, sent = case.expect
+    w2 = [l for op, l in res if op == "wire 2"][1:]      # (the first read is the handshake)
+    for topic, l in zip(sent, w2[-len(sent):]):
+        want = "wire " + wg.show_wire([[topic]]) if topic.startswith(b"y") else "wire ."
+        if l != want:
+            return (f"the second connection under identity sub-A subscribed only to 'y': publishing {topic!r} put {l[:60]} on its "
+                    f"wire (want {want[:40]}) — subscriptions are counted per connection, not per identity")
+    return None
+
+
 def cases(tier, rng):
     out = gen.corpus(ID)
+    for typ in ("PUB", "XPUB"):
+        for i, old_state in enumerate(("open", "eof")):
+            out.append(takeover_case(typ, old_state, 990000 + i))
     # safety net: seeded random schedules of these socket types over scripted pipes (partial reads, back-pressure,
     # errors, futures polled once or twice and then ABANDONED, sockets dropped) — every line predicted by the World model
     for i in range(150 if tier == "quick" else 3000):
@@ -111,6 +162,8 @@ def oracle(case, lines):
         return "panic/abort"
     if not case.expect:
         return None
+    if case.expect[0] == "takeover":
+        return takeover_oracle(case, lines)
     typ, hists, order = case.expect
     res = list(zip(case.ops, lines[1:]))
     # XPUB: subscription messages verbatim and in per-peer order
